@@ -729,6 +729,13 @@ func runProg(fails *[]string, prog string) []reg {
 			f(&x3, &x3, &x3)
 			assertf(fails, x3.Equal(&z), "%s with all aliased differs", name)
 		}
+		// the result must not depend on what the receiver held before (normalised, projective,
+		// identity representatives)
+		for k, st := range staleReceivers() {
+			f(&st, a, b)
+			assertf(fails, st.Equal(&z) && st.Bytes() == z.Bytes(), "%s into a receiver holding stale value #%d differs", name, k)
+		}
+		assertf(fails, *a == ka && *b == kb, "%s modified an operand", name)
 		return &z
 	}
 	un := func(name string, a *banderwagon.Element, f func(z, x *banderwagon.Element)) *banderwagon.Element {
@@ -739,6 +746,11 @@ func runProg(fails *[]string, prog string) []reg {
 		x1 := ka
 		f(&x1, &x1)
 		assertf(fails, x1.Equal(&z) && x1.Bytes() == z.Bytes(), "%s aliased differs", name)
+		for k, st := range staleReceivers() {
+			f(&st, a)
+			assertf(fails, st.Equal(&z) && st.Bytes() == z.Bytes(), "%s into a receiver holding stale value #%d differs", name, k)
+		}
+		assertf(fails, *a == ka, "%s modified its operand", name)
 		return &z
 	}
 	for _, ins := range splitList(";", prog) {
@@ -848,6 +860,25 @@ func runProg(fails *[]string, prog string) []reg {
 		regs = append(regs, r)
 	}
 	return regs
+}
+
+// staleReceivers returns fresh receivers that already hold a value: the generator (Z = 1), a
+// projective multiple of it (Z != 1), both representatives of the identity class, and a
+// normalised non-generator point.
+func staleReceivers() []banderwagon.Element {
+	g := banderwagon.Generator
+	var p, o, o2, n banderwagon.Element
+	p.Double(&g)
+	p.Add(&p, &g)
+	o.SetIdentity()
+	ox, oy, oz := banderwagon.VerifCoords(&o)
+	oy.Neg(&oy)
+	o2 = banderwagon.VerifFromCoords(ox, oy, oz)
+	n.Double(&p)
+	if err := n.Normalize(); err != nil {
+		panic(err)
+	}
+	return []banderwagon.Element{g, p, o, o2, n}
 }
 
 func opGrp(fails *[]string, prog string, batch bool) string {
